@@ -227,6 +227,42 @@ def substitute(t: Term, mapping: Dict[Term, Term]) -> Term:
     return map_children(t, lambda x: substitute(x, mapping))
 
 
+# ----------------------------------------------------------------------------- sequence normal form
+_SEQ_KINDS = ("listcomp", "genexp", "seq")
+
+
+def _is_name_call(t: Term, name: str) -> bool:
+    return t[0] == "call" and t[1] == ("name", name)
+
+
+def normalise(t: Term) -> Term:
+    """Canonical form of sequence-building expressions, bottom-up:
+    list/tuple/iter(X) -> X;  map(lambda p: e, S) -> [e for p in S];
+    filter(lambda p: c, S) -> [p for p in S if c];  list- and generator-comprehensions are one
+    kind ('seq');  sum([E for ..], []) with E a sequence -> the flattened comprehension."""
+    t = map_children(t, normalise)
+    k = t[0]
+    if k == "comp" and t[1] in ("listcomp", "genexp"):
+        return ("comp", "seq", t[2], t[3])
+    if k == "call" and t[1][0] == "name" and not t[3]:
+        fn = t[1][1]
+        if fn in ("list", "tuple", "iter") and len(t[2]) == 1 and t[2][0][0] == "comp" and t[2][0][1] == "seq":
+            return t[2][0]
+        if fn == "map" and len(t[2]) == 2 and t[2][0][0] == "lambda" and len(t[2][0][1]) == 1:
+            lam = t[2][0]
+            return ("comp", "seq", lam[2], (((lam[1][0],), t[2][1], ()),))
+        if fn == "filter" and len(t[2]) == 2 and t[2][0][0] == "lambda" and len(t[2][0][1]) == 1:
+            lam = t[2][0]
+            return ("comp", "seq", ("bound", lam[1][0]), (((lam[1][0],), t[2][1], (lam[2],)),))
+        if fn == "sum" and len(t[2]) == 2 and t[2][0][0] == "comp" and t[2][0][1] == "seq" and (t[2][1] in (("list", ()),) or (t[2][1][0] == "sym" and t[2][1][1].startswith("new") and t[2][1][1].endswith(":list"))):
+            outer = t[2][0]
+            inner = outer[2]
+            if inner[0] == "comp" and inner[1] == "seq":
+                return ("comp", "seq", inner[2], tuple(outer[3]) + tuple(inner[3]))
+            return ("comp", "seq", ("bound", "_flat"), tuple(outer[3]) + ((("_flat",), inner, ()),))
+    return t
+
+
 # ----------------------------------------------------------------------------- polynomials
 Poly = Dict[Tuple[str, ...], Fraction]
 
@@ -344,9 +380,46 @@ def negate_cmp(op: str) -> str:
 
 
 # ----------------------------------------------------------------------------- canonical predicates
+def _neg(t: Term) -> Term:
+    c, pol = canon_pred(t)
+    return c if not pol else ("not", c)
+
+
+def _pos(t: Term) -> Term:
+    c, pol = canon_pred(t)
+    return c if pol else ("not", c)
+
+
+def _as_any(t: Term) -> Optional[Tuple[Term, bool]]:
+    """`any(...)`-normal form of aggregate tests over a comprehension:
+    any(c for ..), all(c for ..), sum([c for ..]) > 0  ->  (any(<seq c' for ..>), polarity)"""
+    def seq_of(a: Term) -> Optional[Term]:
+        if a[0] == "comp" and a[1] in _SEQ_KINDS:
+            return a
+        n = normalise(a)
+        if n[0] == "comp" and n[1] == "seq":
+            return n
+        return None
+
+    if t[0] == "call" and t[1] in (("name", "any"), ("name", "all")) and len(t[2]) == 1 and not t[3]:
+        sq = seq_of(t[2][0])
+        if sq is None:
+            return None
+        if t[1][1] == "any":
+            return ("call", ("name", "any"), (("comp", "seq", _pos(sq[2]), sq[3]),), (), None), True
+        return ("call", ("name", "any"), (("comp", "seq", _neg(sq[2]), sq[3]),), (), None), False
+    if t[0] == "cmp" and t[1] == "<" and t[2] == ("const", 0) and _is_name_call(t[3], "sum") and len(t[3][2]) == 1:
+        sq = seq_of(t[3][2][0])
+        if sq is None:
+            return None
+        return ("call", ("name", "any"), (("comp", "seq", _pos(sq[2]), sq[3]),), (), None), True
+    return None
+
+
 def canon_pred(t: Term) -> Tuple[Term, bool]:
     """Canonical (predicate, polarity): `not p`, `!=`, `is not`, `not in`, `>`, `>=` are
-    rewritten so that syntactic variants of one test share a key."""
+    rewritten so that syntactic variants of one test share a key; aggregate tests over a
+    comprehension (any / all / sum(...) > 0) share the `any` form."""
     pol = True
     while True:
         if t[0] == "not":
@@ -374,6 +447,10 @@ def canon_pred(t: Term) -> Tuple[Term, bool]:
             t = t[2]
             pol = not pol
             continue
+        agg = _as_any(t)
+        if agg is not None:
+            t2, p2 = agg
+            return t2, (pol if p2 else not pol)
         return t, pol
 
 
